@@ -1,7 +1,7 @@
 (* C13 — non-vacuity examples, the instantiation of the lock-discipline theorem
    on the generated call graph, and the refutation of the pre-repair lock. *)
 From Coq Require Import ZArith List Bool String Lia.
-From Verif Require Import C13.Model C13.Proofs gen.Gen_C13.
+From Verif Require Import C13.Model C13.Proofs C13.Threads gen.Gen_C13.
 Import ListNotations.
 Open Scope Z_scope.
 
@@ -135,6 +135,74 @@ Example ex_overlap_bad_labels :
   snd (cstep cfg_free cinit (PassBegin 0 None)) = CRet (RDigest dres0).
 Proof. vm_compute. auto. Qed.
 
+(* ---- threads ----------------------------------------------------------- *)
+
+(* two threads on a full queue (capacity 2, threshold out of reach): thread 0
+   ingests (emergency digest of the oldest item, then the append), thread 1
+   ingests a sensitive item and then digests everything; whatever the
+   schedule, the bound holds after every step.  Here: 0, 1, 1, 1, 1 - thread 1
+   takes both items and hands them to their digesters one by one *)
+Definition thr_pre : list cop := [Atomic (Ingest Misfolded 0 (Ok [1])); Atomic (Ingest Orphaned 0 Raises)].
+Definition thr_progs : list (list op) :=
+  [[Ingest FailedOp 0 (Ok [2])]; [IngestSensitive (Ok []); DigestOp None]].
+Example ex_threads_capacity :
+  let ts0 := mkT (crun cfg_cap thr_pre) thr_progs in
+  let mid := trun cfg_cap ts0 [0; 1; 1]%nat in
+  let ts := trun cfg_cap ts0 [0; 1; 1; 1; 1; 0]%nat in
+  (* after the two ingests: the queue is full again, two items were emergency-processed *)
+  qlen (c_base (t_cs (trun cfg_cap ts0 [0; 1]%nat))) = 2 /\
+  (* thread 1 is inside digest(): both items in flight, it is busy, thread 0 is not *)
+  ids (inflight (t_cs mid)) = [2; 3] /\ busy mid 1 = true /\ busy mid 0 = false /\ work mid = 2%nat /\
+  (* at the end *)
+  all_done ts = true /\ work ts = 0%nat /\ work ts0 = 7%nat /\
+  real_steps cfg_cap ts0 [0; 1; 1; 1; 1; 0]%nat = 5%nat /\
+  n_ingested (c_base (t_cs ts)) = 4 /\ toxlog (c_base (t_cs ts)) = [3] /\
+  nfate EmergOk (c_base (t_cs ts)) = 1 /\ nfate EmergFail (c_base (t_cs ts)) = 1 /\
+  nfate Digested (c_base (t_cs ts)) = 2.
+Proof. vm_compute. auto 20. Qed.
+
+(* the other order of the two ingests gives other ids to the items - the
+   schedule matters - and the same bound *)
+Example ex_threads_other_schedule :
+  let ts0 := mkT (crun cfg_cap thr_pre) thr_progs in
+  ids (queue (c_base (t_cs (trun cfg_cap ts0 [1; 0]%nat)))) = [2; 3] /\
+  it_type (nth 0 (queue (c_base (t_cs (trun cfg_cap ts0 [1; 0]%nat)))) (mkItem 0 Misfolded 0 Raises)) = Toxic /\
+  it_type (nth 0 (queue (c_base (t_cs (trun cfg_cap ts0 [0; 1]%nat)))) (mkItem 0 Misfolded 0 Raises)) = FailedOp.
+Proof. vm_compute. auto. Qed.
+
+(* what run_case prints for such a run (the rows the harness compares with
+   the real threads): one row per scheduled step, then the quiescent state *)
+Example ex_threads_run_case :
+  List.length (run_case (cfg_cap, map ROp thr_pre, thr_progs, [0; 1; 1; 1; 1])) = 7%nat /\
+  nth 1 (run_case (cfg_cap, map ROp thr_pre, thr_progs, [0; 1; 1; 1; 1])) [] = [0; 0; 2; 3; 1; 0; 1; 1; 0; 1; 2].
+Proof. vm_compute. auto. Qed.
+
+(* ---- the threshold reassigned at run time ------------------------------ *)
+
+(* five items queued under threshold 8; the threshold is then lowered to 1:
+   the next ingest digests half of the six (6 // 2 = 3), one pass, and
+   returns with three items queued - still at or above the new threshold; the
+   one after it digests 4 // 2 = 2 *)
+Example ex_threshold_lowered :
+  let ops := (map (fun o => ROp (Atomic o)) (repeat (Ingest Misfolded 0 (Ok [])) 5)
+              ++ [SetThr 1; ROp (Atomic (IngestError (Ok [])))])%list in
+  let st := rrun (mkConfig 8 8 2 true) ops in
+  let st2 := rrun (mkConfig 8 8 2 true) (ops ++ [ROp (Atomic (IngestError (Ok [])))])%list in
+  auto_thr (fst st) = 1 /\ max_queue (fst st) = 8 /\
+  ids (queue (c_base (snd st))) = [3; 4; 5] /\ nfate Digested (c_base (snd st)) = 3 /\
+  ids (queue (c_base (snd st2))) = [5; 6] /\ n_ingested (c_base (snd st2)) = 7.
+Proof. vm_compute. auto 12. Qed.
+
+(* the predicates the reconfiguration / thread theorems are stated with are the
+   bodies of the c13_overlap_* statements *)
+Example cs_statements_are_the_overlap_statements :
+  forall cfg ops,
+    (overlap_conservation_cs cfg (crun cfg ops) = overlap_conservation_stmt cfg ops) /\
+    (reported_once_cs (crun cfg ops) = reported_once_stmt cfg ops) /\
+    (results_cs cfg (crun cfg ops) = results_stmt cfg ops) /\
+    (overlap_toxic_cs cfg (crun cfg ops) = overlap_toxic_stmt cfg ops).
+Proof. intros cfg ops. repeat split; reflexivity. Qed.
+
 (* ---- lock discipline -------------------------------------------------- *)
 
 (* the generated obligation, and the theorem instantiated on the class as it
@@ -147,6 +215,74 @@ Example gen_no_deadlock :
     mreach gen_kind (minit (fun i => thread_prog gen_graph fuel (calls i))) m ->
     (exists i, m_code m i <> []) -> exists m', mstep gen_kind m m'.
 Proof. exact (lock_discipline_no_deadlock gen_kind gen_graph Gen_C13_ok). Qed.
+
+(* the second generated obligation, and its theorem on the class as it is now:
+   every method is a finite program with at most one outermost critical section *)
+Example gen_calls_ok : bounded_calls gen_graph && atomic_calls gen_graph = true.
+Proof. exact Gen_C13_calls_ok. Qed.
+
+Example gen_calls_finite_atomic :
+  forall mi fuel, In mi gen_graph -> (S (List.length gen_graph) <= fuel)%nat ->
+    m_loops mi = [] /\
+    compile gen_graph fuel (m_name mi) = compile gen_graph (S (List.length gen_graph)) (m_name mi) /\
+    (osec 0 (compile gen_graph fuel (m_name mi)) <= 1)%nat.
+Proof. exact (finite_atomic_calls gen_graph Gen_C13_calls_ok). Qed.
+
+(* non-vacuity: ingest has exactly one outermost critical section (with the
+   nested re-acquisition of digest inside it), ingest_error inherits it *)
+Example gen_ingest_one_section :
+  osec 0 (compile gen_graph 30 "ingest") = 1%nat /\ osec 0 (compile gen_graph 30 "ingest_error") = 1%nat /\
+  osec 0 (compile gen_graph 30 "get_statistics") = 0%nat /\
+  List.length (filter (fun x => match x with Acq => true | _ => false end) (compile gen_graph 30 "ingest")) = 2%nat.
+Proof. vm_compute. auto 12. Qed.
+
+(* two threads making three calls each on the class as it is: the machine
+   makes exactly as many steps as their programs are long *)
+Definition two_threads (i : nat) : list instr :=
+  if Nat.ltb i 2 then thread_prog gen_graph 30 ["ingest"; "digest"; "autophagy"]%string else [].
+Example gen_two_threads_stop :
+  forall n m, msteps gen_kind n (minit two_threads) m ->
+    (n <= code_left 2 (minit two_threads))%nat /\ (code_left 2 (minit two_threads) < 200)%nat.
+Proof.
+  intros n m R.
+  assert (Id : forall i, (2 <= i)%nat -> two_threads i = []).
+  { intros i Hi. unfold two_threads. destruct (Nat.ltb_spec i 2); [lia|reflexivity]. }
+  destruct (lock_machine_terminates gen_kind two_threads 2 Id n m R) as [E _].
+  split; [lia|]. vm_compute. lia.
+Qed.
+
+(* the checks can fail.  (1) A loop that digests "until the queue is below the
+   threshold" is not bounded by any list: bounded_calls fails.  (2) Mutual
+   recursion: the unfolding does not fit in any fuel.  (3) An ingest that
+   makes room in one critical section and appends in a second one: two
+   outermost sections, atomic_calls fails - and between the two another
+   thread's ingest fits. *)
+Definition loop_graph : callgraph :=
+  [ mkM "ingest" [LSelf] ["_auto_digest"] [] [] [] 1 [] false;
+    mkM "_auto_digest" [] [] ["digest"] [] [] 0 ["while len(self._queue) >= self.auto_digest_threshold"] false;
+    mkM "digest" [LSelf] [] [] [] [] 1 [] false ]%string.
+Definition rec_graph : callgraph :=
+  [ mkM "a" [] [] ["b"] [] [] 0 [] false; mkM "b" [] [] ["a"] [] [] 0 [] false ]%string.
+Definition split_graph : callgraph :=
+  [ mkM "ingest" [LSelf] ["_enqueue"; "_evict"] ["_emergency"] [] [] 2 [] false;
+    mkM "_enqueue" [] [] [] [] [] 0 [] true;
+    mkM "_evict" [] [] [] [] [] 0 [] true;
+    mkM "_emergency" [] [] [] [] [] 0 [] false ]%string.
+Definition split2_graph : callgraph :=
+  [ mkM "ingest" [LSelf] [] ["_finish"] [] [] 1 [] false;
+    mkM "_finish" [LSelf] [] [] [] [] 1 [] false ]%string.
+Example checks_can_fail :
+  bounded_calls loop_graph = false /\ atomic_calls loop_graph = true /\
+  bounded_calls rec_graph = false /\
+  (forall f, fits rec_graph f "a" = false) /\
+  bounded_calls split_graph = true /\ atomic_calls split_graph = false /\
+  atomic_calls split2_graph = false /\ osec 0 (compile split2_graph 3 "ingest") = 2%nat.
+Proof.
+  repeat split; try (vm_compute; reflexivity).
+  assert (G : forall f, fits rec_graph f "a" = false /\ fits rec_graph f "b" = false).
+  { induction f as [|f [Ha Hb]]; [split; reflexivity|]. split; cbn; [rewrite Hb|rewrite Ha]; reflexivity. }
+  intros f. apply G.
+Qed.
 
 (* non-vacuity: ingest really re-acquires (ingest -> _auto_digest -> digest):
    its program is well bracketed but not flat *)
@@ -163,9 +299,9 @@ Proof. vm_compute. reflexivity. Qed.
 (* ... and really deadlocks: one thread, one call of ingest, on the three
    methods that matter *)
 Definition legacy_graph : callgraph :=
-  [ mkM "ingest" [LSelf] ["_auto_digest"] [] [] [];
-    mkM "_auto_digest" [] [] ["digest"] [] [];
-    mkM "digest" [LSelf] [] [] [] [] ]%string.
+  [ mkM "ingest" [LSelf] ["_auto_digest"] [] [] [] 1 [] false;
+    mkM "_auto_digest" [] [] ["digest"] [] [] 0 [] false;
+    mkM "digest" [LSelf] [] [] [] [] 1 [] false ]%string.
 
 Definition legacy_progs (i : nat) : list instr :=
   if Nat.eqb i 0 then compile legacy_graph 3 "ingest" else [].
